@@ -8,7 +8,8 @@ model's input, the state after it is checked in Coq (vm_compute): the same recta
 the model's phase-1 list, in any order, when phase 2 does not run (the property promises
 no order of the lists), the verified checker `phase2_ok`
 otherwise (which rectangle of maximum area the heap pops is not part of the
-property), plus `phase2_tight` (the loop stopped as early as it could).
+property).  Whether the loop stopped as early as it could (`phase2_tight`) is recorded in the
+evidence only: the property asks for AT LEAST n regions.
 Histories: sequences of operations on ONE Die object (splits with varying (r, n), initial_grid
 before / between / after splits, refused requests, floorplanning_rectangles() and the getters in
 between); after every step the object's lists are compared with the per-call model applied to the
@@ -466,7 +467,7 @@ def gevent(ev):
 
 
 def grid_exact(case, op):
-    return op[1] > 0 and op[2] > 0 and dyadic(case["W"] / op[2]) and dyadic(case["H"] / op[1])
+    return op[1] > 0 and op[2] > 0 and dyadic(F(case["W"]) / op[2]) and dyadic(F(case["H"]) / op[1])
 
 
 def judged_events(case, obs):
@@ -486,7 +487,7 @@ def hist_to_coq(case, obs):
     tr = glist([gevent(ev) for ev in evs])
     # (floorplanning_rectangles() after every step is compared with the lists by the direct oracle; the read events carry it)
     if all(grid_exact(case, ev["op"]) for ev in evs if ev["op"][0] == "grid" and ev["status"] == "ok"):
-        return f"let d0 := {D0} in let tr := {tr} in history_ok d0 tr && trace_tight d0 tr"
+        return f"history_ok {D0} {tr}"
     # a grid whose cells are not binary fractions: step by step, the grid cells within 16 roundings
     scale = gq(max(case["W"], case["H"]))
     parts = [f"die_inv_b {D0}"]
@@ -495,7 +496,7 @@ def hist_to_coq(case, obs):
         ex = gbool(grid_exact(case, op)) if op[0] == "grid" else "true"
         o, out, D2 = gevent_parts(ev)
         parts.append(f"step_agrees {ex} {scale} {gdie(ev['before'])} {o} {out} {D2}")
-    return " && ".join(parts) + f" && trace_tight {D0} {tr}"
+    return " && ".join(parts)
 
 
 def to_coq(case, obs):
@@ -511,18 +512,18 @@ def to_coq(case, obs):
         if st != "ok":
             return f"is_reject (split_rectangles_greedy {RS} {r} {n})"
         OUT = grects(obs["out"])
-        return f"split_rectangles_ok {RS} {r} {n} {OUT} && split_tight {RS} {r} {n} {OUT}"
+        return f"split_rectangles_ok {RS} {r} {n} {OUT}"
     D, D2 = gdie(obs["before"]), gdie(obs["after"])
     fp = f"fp_eqb {D2} {grects(obs['fp'][0])} {grects(obs['fp'][1])}"
     if case["kind"] == "split":
         r, n = gq(case["r"]), gz(case["n"])
         if st != "ok":
             return f"is_reject (die_split_greedy {D} {r} {n}) && die_eqb {D} {D2} && {fp}"
-        return f"die_split_ok {D} {r} {n} {D2} && die_split_tight {D} {r} {n} {D2} && {fp}"
+        return f"die_split_ok {D} {r} {n} {D2} && {fp}"
     nr, nc = gz(case["nrows"]), gz(case["ncols"])
     if st != "ok":
         return f"is_reject (initial_grid {D} {nr} {nc}) && die_eqb {D} {D2} && {fp}"
-    exact = dyadic(case["W"] / case["ncols"]) and dyadic(case["H"] / case["nrows"])
+    exact = dyadic(F(case["W"]) / case["ncols"]) and dyadic(F(case["H"]) / case["nrows"])
     scale = gq(max(case["W"], case["H"]))
     return f"grid_agrees {gbool(exact)} {scale} {D} {nr} {nc} {D2} && {fp}"
 
@@ -666,8 +667,8 @@ def oracle(case, obs):
     if len(after) != nr * nc:
         return f"{len(after)} regions in a {nr}x{nc} grid"
     die = box(b["bbox"])
-    exact = dyadic(case["W"] / nc) and dyadic(case["H"] / nr)
-    tol = F(0) if exact else max(case["W"], case["H"]) / 10 ** 9
+    exact = dyadic(F(case["W"]) / nc) and dyadic(F(case["H"]) / nr)
+    tol = F(0) if exact else F(max(case["W"], case["H"])) / 10 ** 9
     cells = [box(d) for d in after]
     for d, c in zip(after, cells):
         if d["region"] != GROUND or not inside(c, die, tol) or c[2] <= c[0] or c[3] <= c[1]:
@@ -713,7 +714,7 @@ def shrink(case):
                         yield dict(case, ops=ops[:i] + [new] + ops[i + 1:])
         for key in ("W", "H"):
             if not case["regions"] and not case["fixed"] and case[key] > 2 and case[key].denominator == 1:
-                yield dict(case, **{key: case[key] // 2})
+                yield dict(case, **{key: F(case[key] // 2)})
         if case.get("dieform") != "text":
             yield dict(case, dieform="text")
         return
@@ -730,7 +731,7 @@ def shrink(case):
             if case[key] != 1 and not case["regions"] and not case["fixed"]:
                 yield dict(case, **{key: F(1)})
                 if case[key] > 2 and case[key].denominator == 1:
-                    yield dict(case, **{key: case[key] // 2})
+                    yield dict(case, **{key: F(case[key] // 2)})
         if case["kind"] == "grid":
             for key in ("nrows", "ncols"):
                 if case[key] > 1:
@@ -798,10 +799,11 @@ def greedy_evidence(ctx, out, cases):
             RS = grects(obs["before"]["spec"] + obs["before"]["ground"])
             OUT = grects(obs["after"]["spec"] + obs["after"]["ground"])
         r, n = gq(case["r"]), gz(case["n"])
-        exprs += [f"phase2_ran {RS} {r} {n}", f"equals_greedy {RS} {r} {n} {OUT}"]
-    res = core.coq_eval_bools(ctx, HEADER, exprs, shard=80, tag="greedy")
-    ran = [i for i in range(0, len(res), 2) if res[i] is True]
-    out.extra["phase2_sample"] = {"cases": len(res) // 2, "phase2_ran": len(ran),
+        exprs += [f"phase2_ran {RS} {r} {n}", f"equals_greedy {RS} {r} {n} {OUT}", f"split_tight {RS} {r} {n} {OUT}"]
+    res = core.coq_eval_bools(ctx, HEADER, exprs, shard=90, tag="greedy")
+    ran = [i for i in range(0, len(res), 3) if res[i] is True]
+    out.extra["phase2_sample"] = {"cases": len(res) // 3, "phase2_ran": len(ran),
                                   "equal_to_model_greedy_when_ran": sum(1 for i in ran if res[i + 1] is True),
-                                  "equal_to_model_when_not_ran": sum(1 for i in range(0, len(res), 2)
+                                  "stopped_as_early_as_possible_when_ran": sum(1 for i in ran if res[i + 2] is True),
+                                  "equal_to_model_when_not_ran": sum(1 for i in range(0, len(res), 3)
                                                                      if res[i] is False and res[i + 1] is True)}
